@@ -125,7 +125,10 @@ impl Distinct {
 pub fn keep_violations(violations: &mut Vec<Violation>, total: &mut u64, new: Vec<Violation>) {
     *total += new.len() as u64;
     for v in new {
-        if violations.len() < MAX_VIOLATIONS_KEPT {
+        // bounded per property and kind, so that a flood of one kind cannot hide another
+        let same = violations.iter().filter(|w| w.property == v.property && w.kind == v.kind).count();
+        let of_property = violations.iter().filter(|w| w.property == v.property).count();
+        if same < 3 && of_property < MAX_VIOLATIONS_KEPT {
             violations.push(v);
         }
     }
